@@ -205,6 +205,7 @@ def verify_case(reg, con, case, hooks=None):
         names[tag] = names.get(tag, 0) + 1
         what = f"exit={tag}#{names[tag]}"
         E = Env(a, st, s, res=v if k == "return" else None, exc=v.cls if k == "raise" else None, eng=eng, role="goal")
+        E.exc_value = v if k == "raise" else None      # the exception object itself (VExc: .cls, .args), for post-conditions on its message
         try:
             mr = getattr(case, "may_raise", None)
             if case.raises is None and k == "raise" and mr and exc_isa(v.cls, mr):
